@@ -144,10 +144,10 @@ def main(ctx):
                                  Ops='{"write"}', SparseSet=NS, MaxAns=3)),
             ('copy', None, dict(MaxN=6, Blocks=B3, MaxReqs=M3,
                                 Ops='{"get", "put", "copy"}', SparseSet=NS,
-                                MaxAns=3)),
+                                MaxAns=2)),
             ('sparse', None, dict(MaxN=5, Blocks=B3, MaxReqs=M3,
                                   Ops='{"get", "put", "copy"}', SparseSet=SP,
-                                  MaxAns=3)),
+                                  MaxAns=2)),
         ]
     else:
         runs = [
@@ -197,21 +197,21 @@ def main(ctx):
                AllowErr='FALSE')
     D6 = dict(MaxN=6, Blocks=B3, MaxReqs=M3, MaxAns=3)
     sims = [
-        ('read_e', 100 * k, dict(D6, Ops='{"read"}', SparseSet=NS)),
-        ('read_n', 150 * k, dict(D6, Ops='{"read"}', SparseSet=NS,
+        ('read_e', 80 * k, dict(D6, Ops='{"read"}', SparseSet=NS)),
+        ('read_n', 120 * k, dict(D6, Ops='{"read"}', SparseSet=NS,
                                  AllowErr='FALSE')),
-        ('read_big', 150 * k, dict(BIG, MaxN=12, Ops='{"read"}',
+        ('read_big', 120 * k, dict(BIG, MaxN=12, Ops='{"read"}',
                                    SparseSet=NS)),
-        ('write_e', 60 * k, dict(D6, Ops='{"write"}', SparseSet=NS)),
-        ('write_big', 80 * k, dict(BIG, MaxN=12, Ops='{"write"}',
+        ('write_e', 50 * k, dict(D6, Ops='{"write"}', SparseSet=NS)),
+        ('write_big', 60 * k, dict(BIG, MaxN=12, Ops='{"write"}',
                                    SparseSet=NS)),
-        ('copy_e', 100 * k, dict(D6, Ops=COPY, SparseSet=NS)),
-        ('copy_n', 120 * k, dict(D6, Ops=COPY, SparseSet=NS,
+        ('copy_e', 80 * k, dict(D6, Ops=COPY, SparseSet=NS)),
+        ('copy_n', 100 * k, dict(D6, Ops=COPY, SparseSet=NS,
                                  AllowErr='FALSE')),
-        ('copy_big', 100 * k, dict(BIG, MaxN=10, Ops=COPY, SparseSet=NS)),
-        ('sparse_n', 120 * k, dict(D6, Ops=COPY, SparseSet=SP,
+        ('copy_big', 80 * k, dict(BIG, MaxN=10, Ops=COPY, SparseSet=NS)),
+        ('sparse_n', 100 * k, dict(D6, Ops=COPY, SparseSet=SP,
                                    AllowErr='FALSE')),
-        ('sparse_e', 50 * k, dict(D6, Ops=COPY, SparseSet=SP)),
+        ('sparse_e', 40 * k, dict(D6, Ops=COPY, SparseSet=SP)),
     ]
 
     def one_sim(item):
